@@ -120,11 +120,14 @@ func (s *Service) Statistics(tags map[string]string) []models.Statistic {
 			statWriteNodeReqPoints:  atomic.LoadInt64(&s.stats.WriteNodeReqPoints),
 		},
 	}}
+	// The processors map is written by WriteShard and the purge goroutine.
+	s.mu.RLock()
 	for _, processors := range s.processors {
 		for _, p := range processors {
 			statistics = append(statistics, p.Statistics(nil)...)
 		}
 	}
+	s.mu.RUnlock()
 	for key := range statistics[0].Values {
 		if key == statWriteShardReq || key == statWriteShardReqPoints {
 			continue
